@@ -126,24 +126,45 @@ class BorrowedResources(BaseResources[T]):
         # do not postpone if we can resume immediately
         if not self._resources._available >= self._debits:
             await (self._resources._available >= self._debits)
-        await self._resources.__remove_resources__(self._debits)
-        await self.__insert_resources__(self._debits)
+        borrowed = False
+        try:
+            await self._resources.__remove_resources__(self._debits)
+            borrowed = True
+            await self.__insert_resources__(self._debits)
+        except BaseException:
+            # we were interrupted while postponed *after* taking resources
+            # there will be no __aexit__ to give them back
+            self.__dispatch_release__(borrowed=borrowed)
+            raise
         return self
 
     async def __aexit__(self, exc_type, exc_val, exc_tb):
         if exc_type is GeneratorExit:
             # we are killed forcefully and cannot perform async operations
-            # dispatch a new activity to release our resources eventually
+            self.__dispatch_release__(borrowed=True)
+        else:
+            try:
+                await self.__remove_resources__(self._debits)
+            except BaseException:
+                # interrupted between the two steps of giving back
+                self.__dispatch_release__(borrowed=False)
+                raise
+            await self._resources.__insert_resources__(self._debits)
+            # TODO: forcefully kill off anyone holding our resources?
+
+    def __dispatch_release__(self, borrowed: bool):
+        """
+        Dispatch new activities to release our resources eventually
+
+        :param borrowed: whether the resources are booked in our own levels
+        """
+        if borrowed:
             __USIM_STATE__.loop.schedule(
                 self.__remove_resources__(self._debits)
             )
-            __USIM_STATE__.loop.schedule(
-                self._resources.__insert_resources__(self._debits)
-            )
-        else:
-            await self.__remove_resources__(self._debits)
-            await self._resources.__insert_resources__(self._debits)
-            # TODO: forcefully kill off anyone holding our resources?
+        __USIM_STATE__.loop.schedule(
+            self._resources.__insert_resources__(self._debits)
+        )
 
     def borrow(self, **amounts: T) -> 'BorrowedResources[T]':
         borrowing = super().borrow(**amounts)
